@@ -91,7 +91,21 @@ def translate():
     os.makedirs(os.path.join(VERIF, "build"), exist_ok=True)
     rc, out = run([PY, os.path.join(VERIF, "tools", "gen_tables.py"), REPO,
                    os.path.join(LEAN, "PlumVerif", "Generated"), os.path.join(VERIF, "build", "tables.json")])
+    # code translator: the source text of the byte-level core functions -> Generated/PyCode.lean (tied to the
+    # hand-written model by the theorems of Props/Tie*.lean); a construct outside its subset is a failure
+    # (a function outside the translator's subset is left out of PyCode.lean: the Tie* modules about it then fail to
+    # build, which is how the broken code tie reaches the properties concerned — see CODE_TIE below)
+    rc2, out2 = run([sys.executable, os.path.join(VERIF, "tools", "py2lean.py"), REPO, os.path.join(LEAN, "PlumVerif", "Generated")])
+    CODE_TIE["translator_rc"], CODE_TIE["translator"] = rc2, out2[-1500:]
     return rc, out
+
+
+# Code tie (tools/py2lean.py + Props/Tie*.lean).  VERIF_CODE_TIE=strict: a tie theorem that no longer builds is a broken
+# proof obligation like any other (VIOLATION ... no-failing-input-found unless a failing input is found).  Default `soft`:
+# the check widens the failing-input search, and if the property's own theorems and the correspondence harness are intact
+# the verdict rests on the differential tie as before; the broken code tie is reported on a CODE-TIE-BROKEN line and in the
+# evidence, it does not turn a behaviour-preserving rewrite of a translated function red.
+CODE_TIE = {}
 
 
 def write_root():
@@ -191,10 +205,10 @@ def module_closure(mods):
     return sorted(seen)
 
 
-def leanchecker(prop):
+def leanchecker(prop, modules=None):
     """thorough tier: the toolchain's independent re-checker replays every declaration of the property's
     theorem modules and of every model / proof module they import in the kernel"""
-    mods = module_closure([f"PlumVerif.Props.{m}" for m in prop_modules(prop)])
+    mods = module_closure([f"PlumVerif.Props.{m}" for m in (modules or prop_modules(prop))])
     t0 = time.time()
     try:
         rc, out = run(["lake", "env", "leanchecker"] + mods, cwd=LEAN, timeout=3000)
@@ -208,9 +222,9 @@ def prop_modules(prop):
     return registry.PROPS.get(prop, {}).get("prop_modules") or [prop]
 
 
-def theorem_names(prop):
+def theorem_names(prop, modules=None):
     names = []
-    for mod in prop_modules(prop):
+    for mod in (modules if modules is not None else prop_modules(prop)):
         names += theorem_names_of(mod)
     return names
 
@@ -238,7 +252,7 @@ def theorem_names_of(mod):
     return names
 
 
-def print_axioms(prop, names):
+def print_axioms(prop, names, modules=None):
     """returns {theorem: [axioms]} using `#print axioms`; missing theorem -> None"""
     if not names:
         return {}
@@ -246,7 +260,7 @@ def print_axioms(prop, names):
     os.makedirs(d, exist_ok=True)
     path = os.path.join(d, f"{prop}_{os.getpid()}.lean")
     with open(path, "w") as f:
-        for mod in prop_modules(prop):
+        for mod in (modules if modules is not None else prop_modules(prop)):
             f.write(f"import PlumVerif.Props.{mod}\n")
         for n in names:
             f.write(f"#print axioms {n}\n")
@@ -396,11 +410,30 @@ def check(prop, tier, seed, replay=None):
             atexit.register(lambda path=DRIVER_COPY: os.path.exists(path) and os.unlink(path))
         if not driver_ok:
             problems.append(f"model/driver does not build: {b['failed']} {b['errors'][:3]}")
-        pb = lake_build([f"PlumVerif.Props.{m}" for m in prop_modules(prop)])
+        main_mods = [m for m in prop_modules(prop) if not m.startswith("Tie")]
+        tie_mods = [m for m in prop_modules(prop) if m.startswith("Tie")]
+        pb = lake_build([f"PlumVerif.Props.{m}" for m in main_mods])
         build_info["props"] = pb
         props_ok = pb["rc"] == 0
         if not props_ok:
             problems.append(f"proof obligation broken: lake build PlumVerif.Props.{prop} failed in {pb['failed']}: {pb['errors'][:3]}")
+        # code tie: theorems `translated source = model` (one module per area); built one by one so that a rewrite of one
+        # function breaks the tie of that area only
+        tie_problems, tie_built = [], []
+        for m in tie_mods:
+            tb = lake_build([f"PlumVerif.Props.{m}"])
+            if tb["rc"]:
+                tie_problems.append(f"code tie broken: lake build PlumVerif.Props.{m} failed in {tb['failed']}: {tb['errors'][:3]}"
+                                    + (" | translator: " + CODE_TIE.get("translator", "")[-400:] if CODE_TIE.get("translator_rc") else ""))
+            else:
+                tie_built.append(m)
+        tie_mode = os.environ.get("VERIF_CODE_TIE", "soft")
+        build_info["code_tie"] = dict(mode=tie_mode, modules=tie_mods, built=tie_built, broken=tie_problems,
+                                      translator=CODE_TIE.get("translator", "").strip()[-600:])
+        if tie_mode == "strict":
+            problems += tie_problems
+            tie_problems = []
+        audit_mods = (main_mods if props_ok else []) + tie_built
         extra_res = None
         if meta.get("extra_obligations"):
             extra_res = meta["extra_obligations"](dict(lean=LEAN, verif=VERIF, repo=REPO, log=log))
@@ -408,17 +441,18 @@ def check(prop, tier, seed, replay=None):
             if not extra_res.get("ok"):
                 problems.append(f"extra kernel obligations not discharged: {extra_res.get('failed')}")
         if tier == "thorough" and props_ok:
-            lc = leanchecker(prop)
+            lc = leanchecker(prop, audit_mods)
             build_info["leanchecker"] = lc
             if lc["rc"]:
                 problems.append(f"leanchecker rejects the compiled modules: {lc['tail'][-300:]}")
         # (still under the lock, shared: a concurrent check against another tree may rebuild the .olean files read here)
         lock.share()
         names = theorem_names(prop)
+        audit_names = theorem_names(prop, audit_mods)
         axioms = {}
-        if props_ok and names:
-            axioms, aout = print_axioms(prop, names)
-    if props_ok and names:
+        if audit_names:
+            axioms, aout = print_axioms(prop, audit_names, audit_mods)
+    if audit_names:
         for n, ax in axioms.items():
             if ax is None:
                 problems.append(f"audit: could not print axioms of {n}")
@@ -428,7 +462,7 @@ def check(prop, tier, seed, replay=None):
     if hits:
         problems.append("audit: forbidden tokens in Lean sources: " + "; ".join(hits[:10]))
     obligations = len(names) + (extra_res.get("obligations", 0) if extra_res else 0)
-    discharged = (sum(1 for n in names if axioms.get(n) is not None and set(axioms[n]) <= ALLOWED_AXIOMS) if props_ok else 0)
+    discharged = sum(1 for n in audit_names if axioms.get(n) is not None and set(axioms[n]) <= ALLOWED_AXIOMS)
     discharged += extra_res.get("discharged", 0) if extra_res else 0
 
     # correspondence
@@ -483,11 +517,14 @@ def check(prop, tier, seed, replay=None):
     violations = 0
     exit_code = 0
     searched = [dict(tier=tier, seed=seed, evaluations=h.get("evaluations"))]
-    if (new_fail or problems) and not any(f["kind"] == "spec" for f in new_fail) and not replay and driver_ok:
+    if (new_fail or problems or tie_problems) and not any(f["kind"] == "spec" for f in new_fail) and not replay and driver_ok:
         # A proof obligation or the correspondence is broken but no observation violates the
         # property itself yet: widen the search for a concrete failing input (other seeds, the
         # thorough generators) within a time budget.
         budget = float(os.environ.get("VERIF_SEARCH_S", "120" if tier == "quick" else "600"))
+        if not (new_fail or problems):
+            # only the code tie is broken (soft mode): a shorter search keeps a rewritten tree within the tier's budget
+            budget = float(os.environ.get("VERIF_TIE_SEARCH_S", "45" if tier == "quick" else "300"))
         t_search = time.time()
         for k, (stier, sseed) in enumerate([("quick", seed + 1), ("thorough", seed), ("quick", seed + 2), ("thorough", seed + 1)]):
             left = budget - (time.time() - t_search)
@@ -520,6 +557,11 @@ def check(prop, tier, seed, replay=None):
             print(f"VIOLATION property={prop} replay={os.path.relpath(rp, VERIF)} no-failing-input-found")
             violations = max(1, len(corr))
         exit_code = 1
+    elif tie_problems:
+        print(f"CODE-TIE-BROKEN property={prop} modules={','.join(m for m in tie_mods if m not in tie_built)} "
+              f"(no failing input in {sum((x.get('evaluations') or 0) for x in searched)} evaluations; the verdict rests on the property's own "
+              f"theorems + the differential tie; VERIF_CODE_TIE=strict makes this a violation)")
+        build_info["code_tie"]["searched"] = searched
     write_evidence(evidence_path, prop, tier, seed, meta, names, axioms, obligations, discharged, h, problems, t0, build_info,
                    violations=violations, known=sorted(known_hits))
     return exit_code
@@ -535,6 +577,8 @@ def write_evidence(path, prop, tier, seed, meta, names, axioms, obligations, dis
         trusted_base=[
             "Lean 4.33.0 kernel; axioms of each theorem as listed under theorems (allowed: propext, Classical.choice, Quot.sound)",
             "tools/gen_tables.py (translator: tables/constants read from the imported source)",
+            "tools/py2lean.py + lean/PlumVerif/Model/PyPrelude.lean (code translator: Python subset -> Lean, semantics of the primitives; "
+            "validated by harness/pycode.py: generated definitions vs the real functions, value or exception class)",
             "harness (correspondence: implementation vs executable Lean model through the line-protocol driver)",
         ] + meta.get("trusted", []),
         theorems=[dict(name=n, axioms=axioms.get(n)) for n in names],
@@ -555,6 +599,8 @@ def write_evidence(path, prop, tier, seed, meta, names, axioms, obligations, dis
     )
     if build_info.get("extra"):
         cov["extra_obligations"] = build_info["extra"]
+    if build_info.get("code_tie", {}).get("modules"):
+        cov["code_tie"] = build_info["code_tie"]
     if error:
         cov["error"] = error
     ev = dict(property_id=prop, tier=tier, seed=seed, level=meta.get("level", "proof"), coverage=cov,
